@@ -232,6 +232,18 @@ package snapshot
 //@   exit all_written: offset == nameSize + flagsSize + transformSize
 //@   ensures appended_size: len(d.data) == old(len(d.data)) + nameSize + flagsSize + transformSize
 //@   ensures same_or_fresh_array: sameArray(d.data, old(d.data)) || fresh(d.data)
+// Map: an error of the per-entry callback (or of the decoder, other than the
+// end of the data) makes the whole transformation fail; nothing is returned.
+//@ func (d *DBI) ResetCursor
+//@   inline
+//@ func (d *DBI) Map
+//@   modifies *
+//@   assumes names_fit: len(d.name) <= 511 && len(transform) <= 64
+//@   noswallow except snapshot.(*DBI).Next
+//@   loop 0 invariant not_failed: ghost_loc_failed == 0
+//@   loop 0 invariant cursor_in_range: 0 <= d.cur && d.cur <= len(d.data)
+//@   loop 0 invariant names_fit: len(newDBI.name) <= 511 && len(newDBI.transform) <= 64
+//@   ensures nothing_on_error: r1 != nil ==> r0 == nil
 //@ func NewDBISize
 //@   assumes size_hint_nonneg: size >= 0
 //@   ensures r0 != nil && freshObj(r0)
